@@ -265,3 +265,34 @@ def stream_system(R, tier, seed):
     for cid, S, labels, desc in meta:
         judge(S, res.get(cid), labels, desc)
     SM["coq_errors"] = errs
+
+
+def stream_chain(R, tier, seed):
+    """the wiring of VLMStates up to the linear system, one surface: def_mesh, alpha, beta, v -> AIC matrix, right-hand side,
+    and the residual of the implementation's circulations in the MODEL's system (Model/Aero.v Section Chain)"""
+    from .. import aero as A
+    S = R.stream("VLMStates.chain(mesh->AIC,rhs,residual)")
+    cc = CoqCases("aero_chain", IMPORTS); meta = []
+    rng = gen.stable_rng(seed, "aero_chain")
+    sizes = [(2, 2), (2, 3), (3, 3)] if tier == "quick" else [(2, 2), (2, 3), (3, 3), (3, 4), (2, 5), (4, 3)]
+    for kind in _kinds():
+        for (nx, ny) in [s for s in sizes if kind != "full" or s[1] % 2 == 1]:
+            mesh = gen.rand_mesh(rng, nx, ny, kind)
+            alpha = float(rng.uniform(-8, 12)); beta = 0.0 if kind != "full" else float(rng.choice([0.0, rng.uniform(-10, 10)])); v = float(rng.uniform(20, 250))
+            s = A.aero_surface(mesh, "wing", kind != "full")
+            p = A.run(A.build_aero([s], geom=False, alpha=alpha, beta=beta, v=v))
+            mtx = A.g(p, "aero.aero_states.mtx"); rhs = A.g(p, "aero.aero_states.rhs"); circ = A.g(p, "aero.aero_states.circulations")
+            npx, npy = nx - 1, ny - 1; n = npx * npy
+            left = kind != "right"
+            args = "%s %s %s %s" % (nat(npx), nat(npy), boolc(kind != "full"), boolc(left))
+            pre = "let m := a3 %s 3 %s in " % (nat(ny), arr(mesh))
+            es = ["re (t2 %s %s (chain_aic %s %s m)) %s" % (nat(n), nat(n), args, fl(alpha), arr(mtx)),
+                  "re (t1 %s (chain_rhs %s %s %s %s m)) %s" % (nat(n), nat(npy), fl(alpha), fl(beta), fl(v), arr(rhs)),
+                  "maxabs (t1 %s (chain_residual %s %s %s %s m (a1 %s))) / (maxabs %s * maxabs %s + maxabs %s)" % (nat(n), args, fl(alpha), fl(beta), fl(v), arr(circ), arr(mtx), arr(circ), arr(rhs))]
+            cid = cc.add(pre + "[" + "; ".join(es) + "]")
+            meta.append((cid, ["AIC", "rhs", "residual of the code's circulations"], {"group": "AeroPoint/VLMStates", "kind": kind, "nx": nx, "ny": ny, "alpha": alpha, "beta": beta, "v": v}))
+            R.count("aero_chain/%s" % kind); R.mark("chain", kind, nx, ny)
+    res, errs = cc.run(shard=2)
+    for cid, labels, desc in meta:
+        judge(S, res.get(cid), labels, desc)
+    S["coq_errors"] = errs
